@@ -576,6 +576,70 @@ pub fn run(cfg: &Cfg, rep: &mut Report, mode: &Mode2) {
             }
         }
     }
+    // loops used for their value, exits in unusual positions
+    for (idx, (text, _)) in crate::optyping::loop_value_programs().iter().enumerate() {
+        if !cfg.owns(idx as u64) {
+            continue;
+        }
+        let m = run_text(text, FUEL);
+        if matches!(m.outcome, Outcome::Rejected(..)) {
+            ctx.rep.count("optyping:loop-value:rejected");
+            continue;
+        }
+        ctx.rep.count("optyping:loop-value:accepted");
+        ctx.rep.distinct_case(text);
+        for (key, what) in ctx.absorb("optyping-loop-value", text, &m) {
+            if ctx.want(&key) {
+                ctx.emit(&key, &what, text);
+            } else {
+                ctx.rep.count(&format!("further:{}", truncate(&key, 80)));
+            }
+        }
+    }
+    // calls through a union of function types (parameter types intersected by the checker)
+    for (idx, case) in crate::optyping::union_call_cases().iter().enumerate() {
+        if !cfg.owns(idx as u64) {
+            continue;
+        }
+        for text in &case.calls {
+            let m = run_text(text, FUEL);
+            if matches!(m.outcome, Outcome::Rejected(..)) {
+                ctx.rep.count("optyping:union-call:rejected");
+                continue;
+            }
+            ctx.rep.count("optyping:union-call:accepted");
+            ctx.rep.distinct_case(text);
+            for (key, what) in ctx.absorb("optyping-union-call", text, &m) {
+                if ctx.want(&key) {
+                    ctx.emit(&key, &what, text);
+                } else {
+                    ctx.rep.count(&format!("further:{}", truncate(&key, 80)));
+                }
+            }
+        }
+    }
+    // match coverage over scrutinee types with a union inside a container: accepted => every admitted value finds an arm
+    for (idx, case) in crate::optyping::match_coverage_cases().iter().enumerate() {
+        if !cfg.owns(idx as u64) {
+            continue;
+        }
+        for text in &case.calls {
+            let m = run_text(text, FUEL);
+            if matches!(m.outcome, Outcome::Rejected(..)) {
+                ctx.rep.count("optyping:match-coverage:rejected");
+                continue;
+            }
+            ctx.rep.count("optyping:match-coverage:accepted");
+            ctx.rep.distinct_case(text);
+            for (key, what) in ctx.absorb("optyping-match-coverage", text, &m) {
+                if ctx.want(&key) {
+                    ctx.emit(&key, &what, text);
+                } else {
+                    ctx.rep.count(&format!("further:{}", truncate(&key, 80)));
+                }
+            }
+        }
+    }
     // statements after a statement that never completes, in every kind of body (shared with C03's family (l))
     for (idx, text) in crate::props::c03::unreachable_code_programs(None).iter().enumerate() {
         if !cfg.owns(idx as u64) {
